@@ -23,15 +23,59 @@ func init() { Register(&Check{ID: "C08", Level: "exploration", Run: runC08}) }
 var c08Frees = []string{"0", "0.05", "0.333333333333333333", "0.5", "1"}
 var c08Periods = []int64{0, 5, 10}
 
-func c08TypeName(free string, lock, vest int64) string {
-	return fmt.Sprintf("f%s_l%d_v%d", free, lock, vest)
+// the thorough tier widens every axis
+var c08FreesThorough = []string{"0", "0.000000000000000001", "0.05", "0.25", "0.333333333333333333", "0.5", "0.75", "0.999999999999999999", "1"}
+var c08PeriodsThorough = []int64{0, 1, 5, 10, 3600}
+var c08UnitSeconds = map[string]int64{"second": 1, "minute": 60, "hour": 3600, "day": 86400}
+
+type c08Type struct {
+	Free         string
+	Lockup, Vest int64
+	Unit         string
+}
+
+func c08TypeName(free string, lock, vest int64, unit string) string {
+	return fmt.Sprintf("f%s_l%d_v%d_%s", free, lock, vest, unit)
+}
+
+// c08Types lists the vesting types of the tier: every free share x lockup x vesting period in
+// seconds, and (thorough) the periods {0,5}x{0,5} in every other unit as well
+func c08Types(thorough bool) []c08Type {
+	frees, periods := c08Frees, c08Periods
+	if thorough {
+		frees, periods = c08FreesThorough, c08PeriodsThorough
+	}
+	var out []c08Type
+	for _, f := range frees {
+		for _, l := range periods {
+			for _, v := range periods {
+				out = append(out, c08Type{f, l, v, "second"})
+			}
+		}
+		// periods near the end of what a duration can hold (each valid on its own; their sum is not)
+		if f == "0" || f == "0.5" {
+			out = append(out, c08Type{f, 54750, 54750, "day"}, c08Type{f, 106751, 0, "day"}, c08Type{f, 0, 106751, "day"})
+		}
+		if thorough {
+			for _, u := range []string{"minute", "hour", "day"} {
+				for _, l := range []int64{0, 5} {
+					for _, v := range []int64{0, 5} {
+						out = append(out, c08Type{f, l, v, u})
+					}
+				}
+			}
+		}
+	}
+	return out
 }
 
 type c08Case struct {
 	Kind              string // send | create
 	Free              string
 	Lockup, Vesting   int64
+	Unit              string
 	Remainder, Amount string
+	Prior             string // none | sent1: the pool already sent 1 to another new account
 	Restart           bool
 	When              string // before | at | after (pool lock end)
 	Recipient         string // absent | base | vesting | module-blocked | module-gov
@@ -40,18 +84,14 @@ type c08Case struct {
 	Start, End int64 // relative to now
 }
 
-func c08Genesis() harness.Genesis {
+func c08Genesis(thorough bool) harness.Genesis {
 	g := harness.Genesis{Balances: map[string]sdk.Coins{
-		"A": sdk.NewCoins(sdk.NewCoin(harness.Denom, mustInt("5000000000000000000")), sdk.NewInt64Coin(denomB, 1000)),
+		"A": sdk.NewCoins(sdk.NewCoin(harness.Denom, mustInt("5000000000000000000000000")), sdk.NewInt64Coin(denomB, 1000)),
 		"B": coins(7),
 	}}
 	vg := &vtypes.GenesisState{Params: vtypes.Params{Denom: harness.Denom}, VestingAccountTraces: []vtypes.VestingAccountTrace{}}
-	for _, f := range c08Frees {
-		for _, l := range c08Periods {
-			for _, v := range c08Periods {
-				vg.VestingTypes = append(vg.VestingTypes, vtypes.GenesisVestingType{Name: c08TypeName(f, l, v), LockupPeriod: l, LockupPeriodUnit: "second", VestingPeriod: v, VestingPeriodUnit: "second", Free: sdk.MustNewDecFromStr(f)})
-			}
-		}
+	for _, t := range c08Types(thorough) {
+		vg.VestingTypes = append(vg.VestingTypes, vtypes.GenesisVestingType{Name: c08TypeName(t.Free, t.Lockup, t.Vest, t.Unit), LockupPeriod: t.Lockup, LockupPeriodUnit: t.Unit, VestingPeriod: t.Vest, VestingPeriodUnit: t.Unit, Free: sdk.MustNewDecFromStr(t.Free)})
 	}
 	g.Vesting = vg
 	va := vestingtypes.NewContinuousVestingAccountRaw(vestingtypes.NewBaseVestingAccount(authtypes.NewBaseAccountWithAddress(harness.Addr("VA")), coins(9), harness.T0.Unix()+1000), harness.T0.Unix())
@@ -76,7 +116,9 @@ func c08Recipient(kind string) sdk.AccAddress {
 
 type c08Stats struct{ cases, created, withVestingPart, rejected int64 }
 
-// expected locked amount of a continuous vesting schedule at t (whole seconds), exact linear within +-1
+// expected locked amount of a continuous vesting schedule at t (whole seconds): exact linear, within
+// the rounding of the SDK's continuous vesting account, which computes the elapsed ratio as an
+// 18-decimal fixed-point number (error <= 0.5e-18, i.e. <= OV/2e18 coins) and rounds the product
 func linLocked(ov *big.Int, start, end, t int64) (lo, hi *big.Int) {
 	if t <= start {
 		return ov, ov
@@ -87,7 +129,9 @@ func linLocked(ov *big.Int, start, end, t int64) (lo, hi *big.Int) {
 	vested := new(big.Rat).Mul(new(big.Rat).SetInt(ov), big.NewRat(t-start, end-start))
 	l := new(big.Rat).Sub(new(big.Rat).SetInt(ov), vested)
 	f := new(big.Int).Quo(l.Num(), l.Denom())
-	return new(big.Int).Sub(f, big.NewInt(1)), new(big.Int).Add(f, big.NewInt(2))
+	tol := new(big.Int).Quo(ov, big.NewInt(1000000000000000000))
+	tol.Add(tol, big.NewInt(1))
+	return new(big.Int).Sub(f, tol), new(big.Int).Add(f, new(big.Int).Add(tol, big.NewInt(1)))
 }
 
 func c08Run(w *harness.World, base sdk.Context, cs c08Case, st *c08Stats, report func(sig, what string)) {
@@ -171,7 +215,7 @@ func c08Run(w *harness.World, base sdk.Context, cs c08Case, st *c08Stats, report
 	}
 
 	// pool send
-	vt := c08TypeName(cs.Free, cs.Lockup, cs.Vesting)
+	vt := c08TypeName(cs.Free, cs.Lockup, cs.Vesting, cs.Unit)
 	const poolDur = 20
 	rem := mustInt(cs.Remainder)
 	c1, o1 := w.ExecMsg(ctx, vtypes.NewMsgCreateVestingPool(A.String(), "p", rem, poolDur*time.Second, vt), harness.ExecOpts{})
@@ -179,6 +223,16 @@ func c08Run(w *harness.World, base sdk.Context, cs c08Case, st *c08Stats, report
 		panic("c08: pool creation failed: " + o1.Log)
 	}
 	lockEnd := c1.BlockTime().Add(poolDur * time.Second)
+	prior := sdk.ZeroInt()
+	if cs.Prior == "sent1" {
+		var o sdk.Context
+		var oo harness.Outcome
+		o, oo = w.ExecMsg(c1, vtypes.NewMsgSendToVestingAccount(A.String(), harness.AddrS("R2"), "p", sdk.OneInt(), true), harness.ExecOpts{})
+		if oo.Class != harness.OK {
+			panic("c08: prior send failed: " + oo.Log)
+		}
+		c1, prior = o, sdk.OneInt()
+	}
 	var now time.Time
 	switch cs.When {
 	case "before":
@@ -195,15 +249,19 @@ func c08Run(w *harness.World, base sdk.Context, cs c08Case, st *c08Stats, report
 		amount = rem
 	case "rem+1":
 		amount = rem.AddRaw(1)
+	case "rem-1":
+		amount = rem.SubRaw(1)
+	case "rem/2":
+		amount = rem.QuoRaw(2)
 	default:
 		amount = mustInt(cs.Amount)
 	}
 	matured := !now.Before(lockEnd)
-	avail := rem
+	avail := rem.Sub(prior)
 	if matured {
 		avail = sdk.ZeroInt()
 	}
-	want := amount.LTE(avail) && !toExists && !blocked
+	want := !amount.IsNegative() && amount.LTE(avail) && !toExists && !blocked
 	balA := app.BankKeeper.GetBalance(c2, A, harness.Denom).Amount
 	post, out := w.ExecMsg(c2, vtypes.NewMsgSendToVestingAccount(A.String(), to.String(), "p", amount, cs.Restart), harness.ExecOpts{})
 	if out.Class == harness.Panic {
@@ -218,18 +276,18 @@ func c08Run(w *harness.World, base sdk.Context, cs c08Case, st *c08Stats, report
 	p := pools.VestingPools[0]
 	if out.Class != harness.OK {
 		atomic.AddInt64(&st.rejected, 1)
-		if !p.Sent.IsZero() || !p.Withdrawn.IsZero() {
+		if !p.Sent.Equal(prior) || !p.Withdrawn.IsZero() {
 			report("rejected-changed-pool", fmt.Sprintf("a rejected send left sent=%s withdrawn=%s", p.Sent, p.Withdrawn))
 		}
 		return
 	}
 	atomic.AddInt64(&st.created, 1)
-	if !p.Sent.Equal(amount) {
-		report("sent-counter", fmt.Sprintf("pool sent counter is %s after sending %s", p.Sent, amount))
+	if !p.Sent.Equal(amount.Add(prior)) {
+		report("sent-counter", fmt.Sprintf("pool sent counter is %s after sending %s (%s sent before)", p.Sent, amount, prior))
 	}
 	wantWithdrawn := sdk.ZeroInt()
 	if matured {
-		wantWithdrawn = rem
+		wantWithdrawn = rem.Sub(prior)
 	}
 	if !p.Withdrawn.Equal(wantWithdrawn) || !app.BankKeeper.GetBalance(post, A, harness.Denom).Amount.Sub(balA).Equal(wantWithdrawn) {
 		report("implicit-withdraw", fmt.Sprintf("withdrawn=%s owner received %s, documented %s", p.Withdrawn, app.BankKeeper.GetBalance(post, A, harness.Denom).Amount.Sub(balA), wantWithdrawn))
@@ -247,8 +305,8 @@ func c08Run(w *harness.World, base sdk.Context, cs c08Case, st *c08Stats, report
 	}
 	var start, end int64
 	if cs.Restart {
-		start = now.Unix() + cs.Lockup
-		end = start + cs.Vesting
+		start = now.Unix() + cs.Lockup*c08UnitSeconds[cs.Unit]
+		end = start + cs.Vesting*c08UnitSeconds[cs.Unit]
 	} else {
 		start, end = lockEnd.Unix(), lockEnd.Unix()
 	}
@@ -259,20 +317,47 @@ func runC08(rc *RunCtx) {
 	var cases []c08Case
 	rems := []string{"0", "1", "3", "10", "1000000000000000001"}
 	amts := []string{"0", "1", "3", "rem", "rem+1"}
+	priors := []string{"none"}
+	if rc.Thorough() {
+		rems = []string{"0", "1", "2", "3", "10", "100", "1000000000000000001", "999999999999999999999999"}
+		amts = []string{"-1", "0", "1", "2", "3", "rem/2", "rem-1", "rem", "rem+1"}
+		priors = []string{"none", "sent1"}
+	}
 	recips := []string{"absent", "base", "vesting", "module-blocked", "module-gov"}
-	for _, f := range c08Frees {
-		for _, l := range c08Periods {
-			for _, v := range c08Periods {
-				for _, r := range rems {
-					for _, a := range amts {
-						for _, rs := range []bool{true, false} {
-							for _, wh := range []string{"before", "at", "after"} {
-								for _, rcp := range recips {
-									if rcp != "absent" && !(l == 5 && v == 10) {
-										continue // recipient state is independent of the schedule parameters
-									}
-									cases = append(cases, c08Case{Kind: "send", Free: f, Lockup: l, Vesting: v, Remainder: r, Amount: a, Restart: rs, When: wh, Recipient: rcp})
+	resolve := func(r, a string) string {
+		rem := mustInt(r)
+		switch a {
+		case "rem":
+			return rem.String()
+		case "rem+1":
+			return rem.AddRaw(1).String()
+		case "rem-1":
+			return rem.SubRaw(1).String()
+		case "rem/2":
+			return rem.QuoRaw(2).String()
+		}
+		return a
+	}
+	for _, t := range c08Types(rc.Thorough()) {
+		for _, r := range rems {
+			seenAmt := map[string]bool{}
+			for _, a := range amts {
+				if v := resolve(r, a); seenAmt[v] {
+					continue // the same amount under another name is not a new input
+				} else {
+					seenAmt[v] = true
+				}
+				for _, pr := range priors {
+					if pr == "sent1" && mustInt(r).IsZero() {
+						continue
+					}
+					for _, rs := range []bool{true, false} {
+						for _, wh := range []string{"before", "at", "after"} {
+							for _, rcp := range recips {
+								if rcp != "absent" && !(t.Lockup == 5 && t.Vest == 10 && pr == "none") {
+									continue // recipient state is independent of the schedule parameters
 								}
+								cases = append(cases, c08Case{Kind: "send", Free: t.Free, Lockup: t.Lockup, Vesting: t.Vest, Unit: t.Unit, Remainder: r, Amount: a, Prior: pr, Restart: rs, When: wh, Recipient: rcp})
 							}
 						}
 					}
@@ -280,14 +365,18 @@ func runC08(rc *RunCtx) {
 			}
 		}
 	}
+	ses := [][2]int64{{-10, 20}, {5, 25}, {0, 0}, {7, 7}, {-20, -5}, {10, 5}, {0, 1}}
+	if rc.Thorough() {
+		ses = append(ses, [2]int64{-1, 0}, [2]int64{-1, 1}, [2]int64{1, 2}, [2]int64{0, 3000000000}, [2]int64{3000000000, 3000000001}, [2]int64{1, 0}, [2]int64{-100, -100})
+	}
 	for _, cc := range []string{"one", "two", "toomuch"} {
-		for _, se := range [][2]int64{{-10, 20}, {5, 25}, {0, 0}, {7, 7}, {-20, -5}, {10, 5}, {0, 1}} {
+		for _, se := range ses {
 			for _, rcp := range recips {
 				cases = append(cases, c08Case{Kind: "create", Coins: cc, Start: se[0], End: se[1], Recipient: rcp})
 			}
 		}
 	}
-	genesis := harness.BuildGenesis(c08Genesis())
+	genesis := harness.BuildGenesis(c08Genesis(rc.Thorough()))
 	worlds := make([]*harness.World, rc.Workers)
 	var st c08Stats
 	var mu sync.Mutex
@@ -309,7 +398,8 @@ func runC08(rc *RunCtx) {
 	rc.Level = "exploration"
 	rc.Cov = map[string]interface{}{
 		"evaluations": int(st.cases), "distinct_nontrivial": int(st.withVestingPart),
-		"rule":    "full product: vesting type free {0,0.05,1/3,0.5,1} x lockup {0,5,10}s x vesting {0,5,10}s x pool remainder {0,1,3,10,1e18+1} x amount {0,1,3,rem,rem+1} x restart x block time {before, at, after the pool's lock end} (x recipient state {absent, base, vesting, blocked module, gov module} for one schedule), plus direct creation over coins x (start,end) x recipient state. Each case is a distinct input; non-trivial = an account with a non-empty vesting part was created and its schedule compared behaviourally at 9 instants.",
+		"rule":    "full product: vesting type free {0,0.05,1/3,0.5,1} x lockup {0,5,10}s x vesting {0,5,10}s (plus 150y+150y, 292y+0, 0+292y) x pool remainder {0,1,3,10,1e18+1} x amount {0,1,3,rem,rem+1} x restart x block time {before, at, after the pool's lock end} (x recipient state {absent, base, vesting, blocked module, gov module} for one schedule), plus direct creation over coins x (start,end) x recipient state. The thorough tier widens every axis (free shares down to 1e-18 and up to 1-1e-18, periods {0,1,5,10,3600}, period units minute/hour/day, remainders up to 1e24-1, amounts {-1,0,1,2,3,rem/2,rem-1,rem,rem+1}, pools that already sent to another account). Each case is a distinct input; non-trivial = an account with a non-empty vesting part was created and its schedule compared behaviourally at 9 instants.",
+		"vesting_types": len(c08Types(rc.Thorough())),
 		"samples": samples, "accounts_created": int(st.created), "requests_rejected": int(st.rejected), "exhaustive": true,
 	}
 	rc.Assume = []string{"message level (real router handlers on store branches); block times are whole seconds"}
